@@ -95,8 +95,23 @@ CtxLayers(r) == IF r \in ByName THEN <<"BODY", "PAGE", "CTX">> ELSE <<"CTX">>
 \* the builtins module at run time before the render (builtins._ of gettext.install()), an exception
 \* class.  The class changes nothing in the walk: HopBuiltin resolves for every class alike.
 BuiltinClasses == {"public", "shadowable", "dunder", "runtime", "exception"}
-VARIABLES S, r, strict, bclass, pc, fi, res, hops
-vars == <<S, r, strict, bclass, pc, fi, res, hops>>
+\* Which module-level source binds the name when the MOD site is active.  The generated module has a LIST of
+\* such sources, written in this order: the statements of the imports= option (Template / TemplateLookup), then
+\* the <%! %> blocks of the template in source order; the later binding is the current one.  A name bound by any
+\* of them is a module global (codegen.write_toplevel: declared identifiers of ALL imports= statements and of
+\* every module block).  As with the builtin class, the source changes nothing in the walk.
+\*   block            the only <%! %> block           block1of2 / block2of2   first / second of two blocks
+\*   block_twice      both blocks bind it (the second is current)
+\*   imp1of1          the only imports= statement     imp1of2 / imp2of2 / imp2of3   its place in the list
+\*   imp_multi        second name of `from m import a as u, b as NAME`
+\*   imp_dotted_as    `import pkg.sub as NAME`        imp_plain   `import NAME`
+\*   imp_and_block    an imports= statement and a <%! %> block bind it (the block is current)
+ModSources == {"block", "block1of2", "block2of2", "block_twice", "imp1of1", "imp1of2", "imp2of2", "imp2of3",
+               "imp_multi", "imp_dotted_as", "imp_plain", "imp_and_block"}
+PairSources == {"block", "block2of2", "imp1of2", "imp2of3", "imp_multi", "imp_and_block"}
+ModuleValued == {"imp_dotted_as", "imp_plain"}       \* the name is bound to a module object (not callable)
+VARIABLES S, r, strict, bclass, msrc, pc, fi, res, hops
+vars == <<S, r, strict, bclass, msrc, pc, fi, res, hops>>
 
 \* render_body receives the page argument from the render arguments when they have the name
 Value(site) == IF site = "PAGE" /\ "CTX" \in S THEN "CTX" ELSE site
@@ -108,10 +123,16 @@ Init == /\ S \in {T \in SUBSET Sites : Cardinality(T) <= MaxSites}
         /\ strict \in BOOLEAN
         /\ bclass \in (IF "BUILTIN" \notin S THEN {"none"}
                         ELSE IF Cardinality(S) <= ClassSites THEN BuiltinClasses ELSE {"public"})
+        \* every source for the smaller sets, a representative half at |S| = ClassSites, one beyond
+        /\ msrc \in (IF "MOD" \notin S THEN {"none"}
+                      ELSE IF Cardinality(S) < ClassSites THEN ModSources
+                      ELSE IF Cardinality(S) = ClassSites THEN PairSources ELSE {"block"})
+        /\ (msrc = "imp_plain" => bclass = "none")                 \* `import NAME` needs a module of that name
+        /\ (msrc \in ModuleValued => r # "R_FILTER")               \* a module object cannot be applied as a filter
         /\ pc = "closure" /\ fi = 1 /\ res = "" /\ hops = <<>>
 
-Resolve(v, hop) == /\ res' = v /\ pc' = "done" /\ hops' = Append(hops, hop) /\ UNCHANGED <<S, r, strict, bclass, fi>>
-Pass(next, hop) == /\ pc' = next /\ hops' = Append(hops, hop) /\ UNCHANGED <<S, r, strict, bclass, fi, res>>
+Resolve(v, hop) == /\ res' = v /\ pc' = "done" /\ hops' = Append(hops, hop) /\ UNCHANGED <<S, r, strict, bclass, msrc, fi>>
+Pass(next, hop) == /\ pc' = next /\ hops' = Append(hops, hop) /\ UNCHANGED <<S, r, strict, bclass, msrc, fi, res>>
 
 HopClosure ==
   /\ pc = "closure"
@@ -119,7 +140,7 @@ HopClosure ==
      IF Active(f) # {} THEN Resolve(Value(First(f)), "closure")
      ELSE IF "LATE" \in S /\ f = BodyFrame /\ fi = 1 THEN Resolve("UnboundLocalError", "closure")
      ELSE IF fi < Len(Frames(r))
-          THEN /\ fi' = fi + 1 /\ hops' = Append(hops, "closure") /\ UNCHANGED <<S, r, strict, bclass, pc, res>>
+          THEN /\ fi' = fi + 1 /\ hops' = Append(hops, "closure") /\ UNCHANGED <<S, r, strict, bclass, msrc, pc, res>>
           ELSE Pass("module", "closure")
 HopModule == /\ pc = "module"
              /\ IF "MOD" \in S THEN Resolve("MOD", "module") ELSE Pass("import", "module")
@@ -132,10 +153,10 @@ HopBuiltin == /\ pc = "builtin"
               /\ IF "BUILTIN" \in S THEN Resolve("BUILTIN", "builtin") ELSE Pass("undefined", "builtin")
 HopUndefined == /\ pc = "undefined"
                 /\ Resolve(IF strict THEN "NameError" ELSE "UNDEFINED", "undefined")
-Case == [S |-> S, r |-> r, strict |-> strict, bclass |-> bclass, expect |-> res, hops |-> hops]
+Case == [S |-> S, r |-> r, strict |-> strict, bclass |-> bclass, msrc |-> msrc, expect |-> res, hops |-> hops]
 Done == /\ pc = "done" /\ pc' = "printed"
         /\ PrintT(ToJson(Case))
-        /\ UNCHANGED <<S, r, strict, bclass, fi, res, hops>>
+        /\ UNCHANGED <<S, r, strict, bclass, msrc, fi, res, hops>>
 Next == HopClosure \/ HopModule \/ HopImport \/ HopContext \/ HopBuiltin \/ HopUndefined \/ Done
 Spec == Init /\ [][Next]_vars
 
